@@ -116,6 +116,21 @@ Theorem point_backup_value : forall m, (0 < nO m)%nat -> 0 <= gam (pm m) -> obs_
 Proof. exact point_backup_value_lemma. Qed.
 Print Assumptions point_backup_value.
 
+(* Hence every solver step assembled from point-based backups and sub-list selections (PBVI,
+   PERSEUS, Witness, LinearSupport — whatever beliefs, witness points or vertices they choose, and
+   whatever extractDominated / extractBestAtPoint / Pruner keep) yields plans over the previous list. *)
+Theorem point_step_entries_are_plans : forall m, (0 < nO m)%nat -> obs_clean m ->
+  forall (select : vlist -> vlist), (forall l e, In e (select l) -> In e l) ->
+  forall w reqs, w <> [] -> Forall (fun ba : vec * nat => (snd ba < nA (pm m))%nat) reqs ->
+  Forall (entry_is_plan m w) (select (point_candidates m w reqs)).
+Proof. exact point_step_entries_are_plans_lemma. Qed.
+Print Assumptions point_step_entries_are_plans.
+
+Theorem best_action_backup_is_plan : forall m, (0 < nO m)%nat -> obs_clean m ->
+  forall w b, w <> [] -> (0 < nA (pm m))%nat -> entry_is_plan m w (fst (csbb_all m w b)).
+Proof. exact best_action_backup_is_plan_lemma. Qed.
+Print Assumptions best_action_backup_is_plan.
+
 (* A value function made of plans is a sound LOWER bound on the optimal value (for every solver's
    output, whatever produced it): no conditional plan can promise more than expectimax, provided the
    horizon-0 entries promise nothing. *)
